@@ -71,7 +71,10 @@ UnspecifiedDb(c)   == Effective(c) /\ c.how = "DbFails"
 (* One labelled clause per sentence of the statement.  Each entry is
    <<label, holds>>; Labels() returns the labels of the broken ones in order. *)
 Clauses(c, o) == <<
-  <<"X1/exit-code-follows-mapping",  o.exit \in ExpectedExit(c)>>,
+  \* "however a command ends": it does end.  escaped = "Hang": the run had to be interrupted from outside because it
+  \* did not end by itself (only observed for environment disturbances that the run is supposed to ride out)
+  <<"X1/run-ends-by-itself",         o.escaped # "Hang">>,
+  <<"X1/exit-code-follows-mapping",  o.escaped = "Hang" \/ o.exit \in ExpectedExit(c)>>,
   <<"X2/meta-json-written",          c.art => o.meta.present>>,
   <<"X2/meta-exit-code=process",     (c.art /\ o.meta.present /\ ~InterruptOutsideRun(c)) => o.meta.exit = o.exit>>,
   <<"X2/meta-start<=end",            (c.art /\ o.meta.present) => o.meta.timesOk>>,
@@ -105,7 +108,7 @@ Verdict(c, o) == LET l == Labels(c, o) IN IF Len(l) = 0 THEN "ok" ELSE l[1]
    malformed trace file a machinery failure instead of a wrong verdict) *)
 ObsOK(o) ==
   /\ o.exit \in 0..255
-  /\ o.escaped \in {"", "Error", "Interrupt"}
+  /\ o.escaped \in {"", "Error", "Interrupt", "Hang"}
   /\ o.meta.present \in BOOLEAN /\ o.meta.exit \in -1..255
   /\ o.meta.timesOk \in BOOLEAN /\ o.meta.configOk \in BOOLEAN
   /\ o.log.present \in BOOLEAN /\ o.log.complete \in BOOLEAN /\ o.log.parsedAll \in BOOLEAN
